@@ -290,7 +290,8 @@ Definition all_connected_components (i j : list N) : option (list N) :=
       let jm := mof_list 0 (map snd e) mempty in
       let cnt := mgetd cm in
       let nbr := fun v k => mgetd jm (mgetd im v + k) in
-      let fuel := N.succ_pos (2 * N.of_nat (length e) + N.of_nat (length counts)) in
+      (* 2 * (number of directed edges) + n + 1 iterations always suffice (Proofs/DfsC15.v) *)
+      let fuel := N.succ_pos (2 * fold_right N.add 0 counts + N.of_nat (length counts)) in
       match dfs_all cnt nbr fuel (length counts) with
       | None => None
       | Some (lb, _, _) => opt_all (map (mget lb) (nseq 0 (length counts)))
